@@ -77,6 +77,42 @@ def run : List Op → State → State × List (List Comment)
     let (st2, out) := run ops st1
     (st2, cs :: out)
 
+/-- The trailing-comma idiom of `parse_comma_separated_list_with_end_token_with_start`,
+`collect_remaining_and_build_tuple` and the identifier cover (since /repo fix "comments before a
+trailing comma ..."): after the `,` was consumed and the closing token peeked, the comma's comments
+are put back in front of the pending ones (`additional_comments.append(&mut pending);
+pending = additional_comments`). -/
+def pushBack (cs : List Comment) (st : State) : State := { st with pending := cs ++ st.pending }
+
+/-- One comma separated list of single-token elements, as the list parser runs on the queue:
+`elem (, elem)* [,] end`. Returns the elements with the comments handed to them, the comments handed
+to the closing token, and the state after it. `fuel` bounds the number of elements. -/
+def parseList (endTok : Str) : Nat → State → List Comment → List (Str × List Comment) →
+    State × List (Str × List Comment) × List Comment
+  | 0, st, extra, acc => (st, acc.reverse, extra)
+  | fuel + 1, st, extra, acc =>
+    -- element: the production consumes its token and gets `extra` plus the token's comments
+    let (st0, t) := peek st
+    let (st1, cs) := consume st0
+    let name := match t with | .tok s => s | .eof => []
+    let acc := (name, extra ++ cs) :: acc
+    match (peek st1).2 with
+    | .tok s =>
+      if s = [','] then
+        let (st2, ccs) := consume (peek st1).1
+        match (peek st2).2 with
+        | .tok s2 =>
+          if s2 = endTok then
+            let (st3, ecs) := consume (pushBack ccs (peek st2).1)
+            (st3, acc.reverse, ecs)
+          else parseList endTok fuel (peek st2).1 ccs acc
+        | .eof => ((peek st2).1, acc.reverse, ccs)
+      else if s = endTok then
+        let (st3, ecs) := consume (peek st1).1
+        (st3, acc.reverse, ecs)
+      else ((peek st1).1, acc.reverse, [])
+    | .eof => ((peek st1).1, acc.reverse, [])
+
 def commentsOf : List RawTok → List Comment
   | [] => []
   | .comment c :: r => c :: commentsOf r
